@@ -95,6 +95,9 @@ def gen_cases(tier, seed):
         shape = (12,) + factory.sample_shape(cls, nchan, extra)
         for li, lay in enumerate(layouts(shape)):
             yield {"kind": "layout", "signal": si, "layout": [list(c) for c in lay]}
+            if all(len(c) == 1 for c in lay):
+                # the one-chunk layout again under ambient Dask settings a user may have chosen (tiny automatic chunks)
+                yield {"kind": "layout", "signal": si, "layout": [list(c) for c in lay], "ambient": {"array.chunk-size": "16B"}}
         yield {"kind": "orders", "signal": si, "dev": BOUNDS[tier]["dev"]}
     yield {"kind": "processes", "_inline": True}
     for si in range(len(SIGNALS)):
@@ -628,6 +631,11 @@ def joint_case(case, res):
 
 def check_case(case):
     res = report.Result()
+    if case.get("ambient"):
+        with dask.config.set(case["ambient"]):
+            layout_case(case, res)
+        res.hits["ambient Dask configuration (tiny automatic chunks)"] += 1
+        return res
     {"layout": layout_case, "history": history_case, "joint": joint_case, "orders": orders_case, "processes": processes_case, "bodies": bodies_case, "readers": readers_case}[case["kind"]](case, res)
     return res
 
@@ -635,7 +643,7 @@ def check_case(case):
 def main(argv=None):
     return report.run_check(
         PID, gen_cases=gen_cases, check_case=check_case, describe=describe,
-        required_hits=["lazy, then equal after compute", "operation that raises", "layout rejected (chunked time axis)",
+        required_hits=["lazy, then equal after compute", "ambient Dask configuration (tiny automatic chunks)", "operation that raises", "layout rejected (chunked time axis)",
                        "chunked time axis accepted and correct", "task orders explored (graphs with a choice)",
                        "multiprocess scheduler", "task-body interleavings explored", "reader dask read lazy and equal",
                        "two readers in one graph", "materialise, write in place, materialise again", "siblings in one graph"],
